@@ -107,7 +107,7 @@ PROPS['C05'] = dict(
 )
 PROPS['C06'] = dict(
     rules=kernel_pack(('Pfs',), FLAVOURS, 'path') + [_r('PFS1', dp.pfs1, FLAVOURS, 'path'), _r('RESMAP', dp.result_map, FLAVOURS, ('Pfs',), 'path'), _r('TR1', dp.tr1, DIRECTED, ('Pfs',), 'path'),
-                                           _r('METHOD', rk.method, FLAVOURS), _r('BT', rb.bt, FLAVOURS, only=BT5), _r('PATH', rb.path_api, FLAVOURS), _r('ORD-NODE', rm.ord_node, FLAVOURS), _r('PFS-SEARCH', rm.pfs_search, FLAVOURS)],
+                                           _r('METHOD', rk.method, FLAVOURS), _r('BT', rb.bt, FLAVOURS, only=BT5), _r('PATH', rb.path_api, FLAVOURS), _r('ORD-NODE', rm.ord_node, FLAVOURS), _r('PFS-SEARCH', rm.pfs_search, FLAVOURS), _r('OPT', dp.opt_rules, FLAVOURS, 'priority')],
     explanation='Priority-first kernels (12) and entries: BinaryHeap pop/push with Reverse exactly on the Min arms (PFS-FRONT, PFS1), discovery discipline incl. closing edge recorded before '
                 'FOUND (DISC iv/v), no early exit, node ordering by value identically through Ord and PartialOrd and equality by key (ORD-NODE), search = last node of search_path.',
     decides='heap discipline, Min/Max dispatch, comparison impls, discovery discipline',
@@ -144,7 +144,7 @@ PROPS['C09'] = dict(
     assumptions=STD,
 )
 PROPS['C10'] = dict(
-    rules=kernel_pack(('Order',), FLAVOURS) + [_r('ORD1', rk.ord1, FLAVOURS), _r('ORD2', rm.ord2, FLAVOURS), _r('ORD2d', rm.ord2_derived, FLAVOURS), _r('TR1', dp.tr1, DIRECTED, ('Order',)), _r('TR2', dp.tr2, DIRECTED), _r('METHOD', rk.method, FLAVOURS)],
+    rules=kernel_pack(('Order',), FLAVOURS) + [_r('ORD1', rk.ord1, FLAVOURS), _r('ORD2', rm.ord2, FLAVOURS), _r('ORD2d', rm.ord2_derived, FLAVOURS), _r('TR1', dp.tr1, DIRECTED, ('Order',)), _r('TR2', dp.tr2, DIRECTED), _r('OPT', dp.opt_rules, FLAVOURS, 'ordering'), _r('METHOD', rk.method, FLAVOURS)],
     explanation='12 ordering kernels and 8 entries: emission before the recursive call in kernels selected by the Pre arm and after it in kernels selected by the Post arm (ORD1), assembly '
                 'root-first / root-last with node list = targets of the recorded edges (ORD2), one entering edge per reachable non-root node (DISC), LIFO descent (DFS1), no early exit (EXH).',
     decides='emission position, assembly and discovery discipline of the ordering kernels',
@@ -194,7 +194,7 @@ PROPS['C19'] = dict(
 )
 
 PROPS['C18'] = dict(
-    rules=[_r('MAP', rc.map_rules, FLAVOURS), _r('VIEW', rc.view_rules, FLAVOURS), _r('DOT', rc.dot_rules, FLAVOURS), _r('OBS', re_.obs, FLAVOURS),
+    rules=[_r('MAP', rc.map_rules, FLAVOURS), _r('VIEW', rc.view_rules, FLAVOURS), _r('DOT', rc.dot_rules, FLAVOURS), _r('DOT-skel', rc.dot_skel, FLAVOURS), _r('OBS', re_.obs, FLAVOURS),
            _r('ENC', re_.enc, FLAVOURS, only=('ENC-d',))],
     explanation='Graph is one HashMap<K, Node> field; every container method is the expected delegation (contains/len/is_empty/get+clone/remove/iter/to_vec/Index), insert mutates only on the '
                 '"key absent" branch with (clone(key(node)), clone(node)) and returns false/true accordingly, nothing else mutates or replaces the map (MAP); roots/leaves/orphans filter '
@@ -231,7 +231,7 @@ PROPS['C13'] = dict(
 
 PROPS['C11'] = dict(
     rules=[_r('SCC', rscc.scc_rules, DIRECTED)] + kernel_pack(('Order',), DIRECTED) + [_r('ORD1', rk.ord1, DIRECTED), _r('ORD2', rm.ord2, DIRECTED), _r('ORD2d', rm.ord2_derived, DIRECTED), _r('TR1', dp.tr1, DIRECTED, ('Order',)),
-           _r('TR2', dp.tr2, DIRECTED), _r('METHOD', rk.method, DIRECTED), _r('MAP', rc.map_rules, DIRECTED, only=('MAP',))],
+           _r('TR2', dp.tr2, DIRECTED), _r('OPT', dp.opt_rules, DIRECTED, 'ordering'), _r('METHOD', rk.method, DIRECTED), _r('MAP', rc.map_rules, DIRECTED, only=('MAP',))],
     explanation='scc() as a Kosaraju composition schema: the first pass loops over all members and appends, for every unvisited one, the complete filtered postorder (not transposed, filter '
                 'rejecting edges into visited nodes) to both the visited set and the ordering (SCC1); the second pass pops the ordering from the back, skips assigned nodes, and takes as '
                 'component the result of a transposed, filtered *reachable-set* search (Order::search_nodes) from the popped node, marking every element assigned (SCC2: a path or cycle '
